@@ -159,6 +159,8 @@ MALFORMED = [  # (pattern, explicitly escaped literal spelling)   - fnmatch mode
 MALFORMED_NOSPLIT = [('a|b', 'a\\|b'), ('|', '\\|'), ('a|', 'a\\|')]
 EMPTY_LANG = ['[b-a]', 'x[b-a]', '[b-a]x']           # a lone reversed range matches nothing
 ANYCHAR = [('[!b-a]', '?'), ('[^b-a]', '?'), ('x[!9-0]', 'x?'), ('[!b-a9-0]', '?'), ('@([!b-a])', '@(?)')]   # negated: any one character
+# a hyphen before a POSIX class is a literal and the class ends nothing: what follows is an ordinary member
+ANYCHAR += [('[a-[:digit:]%s]' % ch, '[a\\-[:digit:]\\%s]' % ch) for ch in '!+,*#$%&\'()./:;<=>?@^_`{|}~ bz']
 BASH_PATS = ['[', '[a', 'a[', '[]', '[!', '[!]', '@(a', 'a)', ')', 'a(', '[b-a]', 'x[b-a]', '[]a]', 'a|b', '|', '[[', '[a-', '[]a',
              '@(a|b)', '?(a)b', '*(a)', '+(a|b)', '[!a]', '[a-b]', 'a*', '*a', '?', '\\[', '\\*', '[\\]]', '!(a)', '!(a|b)b']
 BASH_NAME_ALPHA = 'ab[]()|!@'
